@@ -168,6 +168,7 @@ class DataChunk(Chunk):
     _abandoned: bool
     _book_size: int
     _expiry: Optional[float]
+    _in_flight: bool
     _max_retransmits: Optional[int]
     _misses: int
     _retransmit: bool
@@ -813,10 +814,15 @@ class RTCSctpTransport(AsyncIOEventEmitter):
         self._set_state(self.State.COOKIE_WAIT)
 
     def _flight_size_decrease(self, chunk: DataChunk) -> None:
-        self._flight_size = max(0, self._flight_size - chunk._book_size)
+        # a chunk is only ever counted once in the flight size
+        if chunk._in_flight:
+            chunk._in_flight = False
+            self._flight_size = max(0, self._flight_size - chunk._book_size)
 
     def _flight_size_increase(self, chunk: DataChunk) -> None:
-        self._flight_size += chunk._book_size
+        if not chunk._in_flight:
+            chunk._in_flight = True
+            self._flight_size += chunk._book_size
 
     def _get_extensions(self, params: list[tuple[int, bytes]]) -> None:
         """
@@ -1180,7 +1186,7 @@ class RTCSctpTransport(AsyncIOEventEmitter):
             done += 1
             if not schunk._acked:
                 done_bytes += schunk._book_size
-                self._flight_size_decrease(schunk)
+            self._flight_size_decrease(schunk)
 
             # update RTO estimate
             if done == 1 and schunk._sent_count == 1:
@@ -1346,6 +1352,7 @@ class RTCSctpTransport(AsyncIOEventEmitter):
             chunk._acked = False
             chunk._book_size = len(chunk.user_data)
             chunk._expiry = expiry
+            chunk._in_flight = False
             chunk._max_retransmits = max_retransmits
             chunk._misses = 0
             chunk._retransmit = False
@@ -1505,6 +1512,7 @@ class RTCSctpTransport(AsyncIOEventEmitter):
 
         # mark retransmit or abandoned chunks
         for chunk in self._sent_queue:
+            chunk._in_flight = False
             if not self._maybe_abandon(chunk):
                 chunk._retransmit = True
         self._update_advanced_peer_ack_point()
